@@ -345,7 +345,8 @@ def transform_fn(tok, classes=None):
 # types
 # ---------------------------------------------------------------------------
 # ty JSON: ["int"] ["str"] ["bool"] ["float"] ["none"] ["any"] ["lit", [scalar tokens]]
-#          ["union", t, t] ["list", t] ["set", t] ["dict", k, v] ["spec", class id]
+#          ["union", t, t] ["list", t] ["set", t] ["dict", k, v] ["spec", class id] ["valid", predicate id, base]
+#          ["mseq", t] ["mset", t] ["mmap", k, v]   (MutableSequence[t], MutableSet[t], MutableMapping[k, v])
 
 
 def opt(t):
@@ -368,6 +369,10 @@ def ty_tokens(t) -> str:
         return f"spec {t[1]}"
     if k == "valid":
         return f"valid {t[1]} {ty_tokens(t[2])}"
+    if k in ("mseq", "mset"):
+        return f"{k} {ty_tokens(t[1])}"
+    if k == "mmap":
+        return f"mmap {ty_tokens(t[1])} {ty_tokens(t[2])}"
     raise ValueError(t)
 
 
@@ -405,6 +410,13 @@ def ty_real(t, classes):
         if t[1] not in vc:
             vc[t[1]] = make_validated(t[1])
         return vc[t[1]]
+    # the abstract collection generics: `check_type` looks at the container class only
+    if k == "mseq":
+        return typing.MutableSequence[ty_real(t[1], classes)]
+    if k == "mset":
+        return typing.MutableSet[ty_real(t[1], classes)]
+    if k == "mmap":
+        return typing.MutableMapping[ty_real(t[1], classes), ty_real(t[2], classes)]
     raise ValueError(t)
 
 
@@ -419,8 +431,10 @@ def union_members(t):
 # ---------------------------------------------------------------------------
 # family = {"classes": [cd, ...]} in dependency order, cd =
 #   {"id": n, "kind": "spec"|"plain", "base": id|None, "key": attr|None,
-#    "attrs": [{"name": a, "ty": ty, "dk": "none|value|factory|attr|attrfactory|field|fieldfactory",
+#    "attrs": [{"name": a, "ty": ty, "dk": "none|value|factory|attr|attrfactory|field|fieldfactory|prop",
 #               "d": value tokens|None, "prep": id|None, "ip": id|None}],
+#               (dk "prop": the attribute is backed by an overridable `spec_property` whose getter returns `d`:
+#                no default of its own, `getattr` without an override finds `d`)
 #    "over": {"<attr>": value tokens}}        # class-body default overrides of inherited attributes
 
 
@@ -499,10 +513,10 @@ def class_lines(fam):
             parts += [
                 str(a["name"]),
                 ty_tokens(a["ty"]),
-                "_" if a.get("d") is None else a["d"],
+                "_" if a.get("d") is None or a.get("dk") == "prop" else a["d"],
                 "_" if a.get("prep") is None else str(a["prep"]),
                 "_" if a.get("ip") is None else str(a["ip"]),
-                a["d"] if a.get("d") is not None and a.get("dk") in ("value", "attr", "field") else "_",
+                a["d"] if a.get("d") is not None and a.get("dk") in ("value", "attr", "field", "prop") else "_",
                 str(len(a.get("inv") or [])),
             ] + [str(x) for x in (a.get("inv") or [])]
         lines.append(" ".join(parts))
@@ -542,6 +556,8 @@ def build_family(fam):
                         ns[name] = Attr(default=decode(d, classes), invalidated_by=inv)
                     else:
                         ns[name] = Attr(invalidated_by=inv)
+                elif dk == "prop":
+                    ns[name] = _sc["mod"].spec_property((lambda d: (lambda self: decode(d, classes)))(d))
                 elif dk == "value":
                     ns[name] = decode(d, classes)
                 elif dk == "factory" or dk == "attrfactory":
